@@ -126,13 +126,21 @@ def _on_alarm(signum, frame):
 
 @contextlib.contextmanager
 def watchdog(seconds):
-    old = signal.signal(signal.SIGALRM, _on_alarm)
-    signal.setitimer(signal.ITIMER_REAL, seconds)
+    """Raise Hang in the guarded block after `seconds` of CPU time of this process (ITIMER_PROF: a call that loops forever burns CPU, while a
+    process that is merely starved on an overloaded machine does not - a wall-clock limit of 10 s once fired spuriously during a sweep that
+    oversubscribed the cores three times), with a wall-clock fallback at 30 x seconds (at least 300 s) for a call that blocks without
+    using CPU.  Nested use restores the enclosing timers."""
+    old_alarm = signal.signal(signal.SIGALRM, _on_alarm)
+    old_prof = signal.signal(signal.SIGPROF, _on_alarm)
+    prev_real = signal.setitimer(signal.ITIMER_REAL, max(30 * seconds, 300))
+    prev_prof = signal.setitimer(signal.ITIMER_PROF, seconds)
     try:
         yield
     finally:
-        signal.setitimer(signal.ITIMER_REAL, 0)
-        signal.signal(signal.SIGALRM, old)
+        signal.setitimer(signal.ITIMER_PROF, prev_prof[0])
+        signal.setitimer(signal.ITIMER_REAL, prev_real[0])
+        signal.signal(signal.SIGPROF, old_prof)
+        signal.signal(signal.SIGALRM, old_alarm)
 
 
 # ------------------------------------------------------------------------------------------
